@@ -435,7 +435,10 @@ def _bytes(eng: Any, v: Any = b"", *a: Any) -> Any:
                 eng.raise_(ValueError, str(ex))
         # symbolic bytes: a tuple-like SBytes
         for x in items:
-            if eng.truth(sym.Or(x < 0, x > 255)):
+            bad = sym.Or(x < 0, x > 255)
+            if bad is False or eng.provable(sym.Not(bad)):
+                continue
+            if eng.truth(bad):
                 eng.raise_(ValueError, "bytes must be in range(0, 256)")
         return SBytes(list(items))
     if eng.all_concrete(v):
